@@ -65,7 +65,7 @@ func fmQPS(rng *vRand) float64 {
 
 func flagsCaseCount(e vEnv) int64 {
 	if e.Tier == "thorough" {
-		return 2000000
+		return 6000000
 	}
 	return 60000
 }
